@@ -392,6 +392,16 @@ async fn main() {
                 if samples.len() < 2 { samples.push(desc(json!({"cancel_at": at, "victim": victim, "reply": reply, "got": got}))); }
             }
             "C16" => {
+                // tie of the hash the parties compare: `Policy::program_hash()` is the hex form of BLAKE3 over the program's bytes, nothing more and nothing
+                // less (no normalisation of line ends, white space or case) — computed here by the Lean BLAKE3 on the same bytes
+                if case == 0 {
+                    let mut texts: Vec<String> = [P2, P3, P2C, P3C, P3C2, NL_A2, NL_B2, NL_A3, NL_B3, "", "a", "pub fn main(a: u8) -> u8 { a }\r\n", "pub fn main(a: u8) -> u8 { a }\n", "pub fn main(a: u8) -> u8 {\ta }", "PUB FN MAIN", "pub fn main(x: u8) -> u8 { x } // \u{e4}\u{20ac}"].iter().map(|x| x.to_string()).collect();
+                    for k in 0..8 { let len = [1usize, 63, 64, 65, 127, 128, 500, 1000][k]; texts.push((0..len).map(|_| (32 + r.below(95) as u8) as char).collect()); }
+                    for t in texts { let pol = Policy { program: t.clone(), ..policy(2, 0, 0, true, Uuid::from_u128(1), P2, false) };
+                        let hex: String = t.as_bytes().iter().map(|b| format!("{b:02x}")).collect(); let want = m.ask(&format!("prim blake3 {}", if hex.is_empty() { "-".to_string() } else { hex }));
+                        *dist.entry("program_hash_tie".into()).or_default() += 1; steps += 1;
+                        if want != format!("blake3 {}", pol.program_hash()) { disagreements.push(json!({"what": "Policy::program_hash() is not BLAKE3 of the program bytes (Lean BLAKE3)", "program": t, "real": pol.program_hash(), "model": want})); } }
+                }
                 // kinds 3 and 4: programs that are DIFFERENT (they compute different functions) but textually as close as possible — a line break that
                 // moves code into a comment, and a difference in the very last token; kinds cycle deterministically first, then seeded
                 // corpus: the mismatching follower schedules first; while it waits for validation a SECOND schedule arrives with the leader's program
